@@ -112,6 +112,18 @@ def run(ctx):
         # ---- ub_to_u_b: QR + sign normalisation
         fn = mod.func("ub_to_u_b"); ctx.saw(mod, fn)
         where = core.loc(mod, fn)
+        # conditioning: the property covers matrices up to condition number 1e6.  A factorisation obtained from the
+        # Gram matrix X'X (Cholesky / eigen-decomposition of the normal equations) squares the condition number:
+        # relative error ~ 1e12 * 1e-16 = 1e-4 in U, far outside the property's accuracy -- a known-bad numerical idiom.
+        gram = [n_ for n_ in ast.walk(fn) if isinstance(n_, ast.Call) and isinstance(n_.func, ast.Attribute)
+                and n_.func.attr in ("cholesky", "eigh", "eig", "sqrtm")]
+        uses_qr = any(isinstance(n_, ast.Call) and isinstance(n_.func, ast.Attribute) and n_.func.attr == "qr" for n_ in ast.walk(fn))
+        ctx.check(not gram, "C02:qr:%s.conditioning" % short,
+                  "ub_to_u_b factorises through `%s` of a Gram matrix instead of an orthogonal-triangular factorisation: the condition "
+                  "number (up to 1e6 in the property's domain) is squared, U loses orthonormality to ~1e-4"
+                  % (core.unparse(gram[0].func) if gram else ""), where)
+        if gram and not uses_qr:
+            continue
         UB = sym_array("UB_matrix", (3, 3))
         Q = sym_array("Q", (3, 3))
         R = sym_array("R", (3, 3))
